@@ -289,16 +289,23 @@ func (c *SimConn) Write(b []byte) (int, error) {
 	// connection at a time, one reading - an LMTP delivery - and one writing)
 	c.ownInstant(c.wclass)
 	c.wmu.Lock()
+	nodeadline := c.wdeadline == 0
+	c.wmu.Unlock()
+	hazard := false
+	if c.owner != nil && !raceTier && nodeadline && len(b) > 0 && smtp.VerifConnLocked(c.owner) && heldByCaller(c.owner) {
+		// A write with no deadline, issued while the Conn's mutex is held: if the peer stops
+		// reading it never returns, and Server.Close, which needs the mutex to end the
+		// connection, never returns either. (Probed with no harness lock held.)
+		hazard = true
+	}
+	c.wmu.Lock()
 	if c.wdeadline != 0 && time.Now().UnixNano() >= c.wdeadline {
 		c.wmu.Unlock()
 		return 0, &net.OpError{Op: "write", Net: "sim", Err: os.ErrDeadlineExceeded}
 	}
 	c.nwrites++
 	nw := c.nwrites
-	if c.owner != nil && !raceTier && c.wdeadline == 0 && len(b) > 0 && smtp.VerifConnLocked(c.owner) {
-		// A write with no deadline, issued while the Conn's mutex is held: if the peer stops
-		// reading it never returns, and Server.Close, which needs the mutex to end the
-		// connection, never returns either.
+	if hazard {
 		c.unboundedUnderLock++
 	}
 	var cuts []int
@@ -318,6 +325,9 @@ func (c *SimConn) Write(b []byte) (int, error) {
 	}
 	c.wmu.Unlock()
 
+	blockHere := c.faults.BlockWriteAt > 0 && nw == c.faults.BlockWriteAt && len(b) > 0
+	lockedHere := blockHere && connLocked(c) // (probed with no harness lock held)
+
 	h := c.wr
 	h.mu.Lock()
 	defer h.mu.Unlock()
@@ -330,8 +340,8 @@ func (c *SimConn) Write(b []byte) (int, error) {
 	if c.faults.FailWriteAt > 0 && nw >= c.faults.FailWriteAt {
 		return 0, errPipe
 	}
-	if c.faults.BlockWriteAt > 0 && nw == c.faults.BlockWriteAt && len(b) > 0 {
-		if !connLocked(c) {
+	if blockHere {
+		if !lockedHere {
 			if err := c.blockedWrite(h); err != nil {
 				return 0, err
 			}
